@@ -136,6 +136,7 @@ type HarnessRun struct {
 	Name       string
 	Fn         *ssa.Function
 	AllocBound int
+	BigBits    int
 	MaxSteps   int
 	MaxPaths   int
 	Pins       map[string]*big.Int // pinned nd inputs (translator validation / replay in engine)
@@ -367,7 +368,7 @@ func (x *Exec) witness(m map[string]*big.Int) map[string]string {
 		case "choice":
 			out[in.Name] = fmt.Sprint(in.Val)
 		default:
-			if v, ok := m[in.Name]; ok {
+			if v, ok := m[fmt.Sprintf("%s!%d", in.Name, in.W)]; ok {
 				out[in.Name] = v.String()
 			} else {
 				out[in.Name] = "0"
